@@ -106,46 +106,56 @@ def hexEncode (b : List UInt8) : List UInt8 := b.flatMap (fun x => [hexNib (x / 
 
 /-! ### DecodeAddress -/
 
-/-- `DecodeAddress(addr, defaultNet)`. `regHrps` = HRPs of the registered networks
-(`chaincfg.IsBech32SegwitPrefix`), `H` = Base58Check checksum, `validPK` = `btcec.ParsePubKey` succeeds. -/
+/-- the human-readable part when `addr` is tried as a segwit address: everything before the last `'1'`, longer
+than one character and (lower-cased) the HRP of a registered network (`chaincfg.IsBech32SegwitPrefix`) -/
+def segwitPrefix (regHrps : List (List UInt8)) (addr : List UInt8) : Option (List UInt8) :=
+  match splitLastOne addr with
+  | some (h, _) => if h.length > 1 && regHrps.contains (lowerStr h) then some h else none
+  | none => none
+
+/-- which address a decoded witness version / program becomes -/
+def segwitToAddr (hrp : List UInt8) (ver : Nat) (prog : List UInt8) : Except AddrErr Addr :=
+  if ver ≠ 0 && ver ≠ 1 then .error .witVer else
+  if prog.length = 2 then
+    if ver = 1 && prog = [0x4e, 0x73] then .ok (.p2a hrp) else .error .witProgLen
+  else if prog.length = 20 then
+    if ver = 0 then .ok (.wpkh hrp prog) else .error .witProgLen
+  else if prog.length = 32 then
+    if ver = 1 then .ok (.tr hrp prog) else .ok (.wsh hrp prog)
+  else .error .witProgLen
+
+/-- the segwit branch of `DecodeAddress` (the prefix `h` was recognised) -/
+def decodeSegwitAddr (h addr : List UInt8) : Except AddrErr Addr :=
+  match decodeSegwit addr with
+  | .error e => .error e
+  | .ok (ver, prog) => segwitToAddr (lowerStr h) ver prog
+
+/-- the non-segwit part of `DecodeAddress`: hex public key, else Base58Check P2PKH / P2SH of `net` -/
+def decodeLegacy (H : List UInt8 → List UInt8) (validPK : List UInt8 → Bool) (addr : List UInt8) (net : Net) :
+    Except AddrErr Addr :=
+  if addr.length = 130 || addr.length = 66 then
+    match hexDecode? addr with
+    | none => .error .pubkey
+    | some ser => if validPK ser then .ok (.pk (normPK ser) net.pkh) else .error .pubkey
+  else
+    match checkDecode H addr with
+    | .error .checksum => .error .checksum
+    | .error .format => .error .format
+    | .ok (decoded, netID) =>
+      if decoded.length = 20 then
+        if netID = net.pkh && netID = net.sh then .error .collision
+        else if netID = net.pkh then .ok (.pkh decoded netID)
+        else if netID = net.sh then .ok (.sh decoded netID)
+        else .error .unknownType
+      else .error .size
+
+/-- `DecodeAddress(addr, defaultNet)`. `regHrps` = HRPs of the registered networks, `H` = Base58Check
+checksum, `validPK` = `btcec.ParsePubKey` succeeds. -/
 def decodeAddress (regHrps : List (List UInt8)) (H : List UInt8 → List UInt8) (validPK : List UInt8 → Bool)
     (addr : List UInt8) (net : Net) : Except AddrErr Addr :=
-  let segwit : Option (List UInt8) :=
-    match splitLastOne addr with
-    | some (h, _) => if h.length > 1 && regHrps.contains (lowerStr h) then some h else none
-    | none => none
-  match segwit with
-  | some h =>
-    match decodeSegwit addr with
-    | .error e => .error e
-    | .ok (ver, prog) =>
-      if ver ≠ 0 && ver ≠ 1 then .error .witVer else
-      let hrp := lowerStr h
-      if prog.length = 2 then
-        if ver = 1 && prog = [0x4e, 0x73] then .ok (.p2a hrp) else .error .witProgLen
-      else if prog.length = 20 then
-        if ver = 0 then .ok (.wpkh hrp prog) else .error .witProgLen
-      else if prog.length = 32 then
-        if ver = 1 then .ok (.tr hrp prog) else .ok (.wsh hrp prog)
-      else .error .witProgLen
-  | none =>
-    if addr.length = 130 || addr.length = 66 then
-      match hexDecode? addr with
-      | none => .error .pubkey
-      | some ser => if validPK ser then .ok (.pk (normPK ser) net.pkh) else .error .pubkey
-    else
-      match checkDecode H addr with
-      | .error .checksum => .error .checksum
-      | .error .format => .error .format
-      | .ok (decoded, netID) =>
-        if decoded.length = 20 then
-          let isP2PKH := netID = net.pkh
-          let isP2SH := netID = net.sh
-          if isP2PKH && isP2SH then .error .collision
-          else if isP2PKH then .ok (.pkh decoded netID)
-          else if isP2SH then .ok (.sh decoded netID)
-          else .error .unknownType
-        else .error .size
+  match segwitPrefix regHrps addr with
+  | some h => decodeSegwitAddr h addr
+  | none => decodeLegacy H validPK addr net
 
 /-- `EncodeAddress` for every kind except `pk` (whose encoding is the P2PKH address of `hash160 ser`);
 `String()` for `pk` is the hex of the serialization. -/
